@@ -372,7 +372,11 @@ def apply(F, S):
                 continue
             fn = cands[0]
             pol = symex.Policy(F, modular=True)
-            rx, rn = symex.evaluate(F, fx, pol, canon=True), symex.evaluate(F, fn, pol, canon=True)
+            try:
+                rx, rn = symex.evaluate(F, fx, pol, canon=True), symex.evaluate(F, fn, pol, canon=True)
+            except symex.Unsupported as e:
+                S.bad("U5", "mirror-unrecognised", fx.label, "cannot compare %s with its Minimum counterpart: UNRECOGNISED idiom (%s)" % (fx.label, str(e)[:140]), loc(fx.span))
+                continue
             mx = {"ret": mirror(rx["ret"]), **{mirror(k): mirror(v) for k, v in rx["heap"].items()}}
             mn = {"ret": unstrict(rn["ret"]), **{k: unstrict(v) for k, v in rn["heap"].items()}}
             diffs = [k for k in set(mx) | set(mn) if N.key(mx.get(k)) != N.key(mn.get(k))]
